@@ -246,12 +246,6 @@ pub fn run(run: &Arc<Run>) {
          A level case is non-trivial always; distinct = distinct level bit patterns / distinct ordered (kind,level) pairs.",
     );
     run.set_exhaustive(false);
-    let prod = cfg!(not(debug_assertions));
-    if prod {
-        run.assume("this is the production-profile lane: overflow-checks = false, debug-assertions = false");
-    } else {
-        run.assume("judged in two builds of the crate: checked (overflow-checks + debug-assertions) and production (neither); the second is folded in as the `production` lane");
-    }
     let seed = run.cfg.seed;
     let mut levels = special_levels();
     levels.extend(level_grid(seed, 8));
@@ -275,11 +269,6 @@ pub fn run(run: &Arc<Run>) {
         pool.push((k, f64::MIN_POSITIVE));
         pool.push((k, 1e-17));
         pool.push((k, 1.0 - 2f64.powi(-52)));
-    }
-    if let Some(i) = run.cfg.extra.iter().position(|a| a == "--prod-summary") {
-        let path = run.cfg.extra.get(i + 1).cloned().unwrap_or_default();
-        run.import_lane("production", &path);
-        run.require(&["production lane judged"]);
     }
     if let Some(case) = &run.replay_case {
         let mut l = run.local();
